@@ -570,7 +570,18 @@ class ImportStatement:
             else:
                 t = "%s" % (importname,)
             tokens.append(t)
-        res = s0 + pyfill(s, tokens, params=params)
+        if self.fromname is None or tokens == ["*"]:
+            # Parentheses are only legal around the names of a 'from' import:
+            # 'import (a)' and 'from m import (*)' are syntax errors.  So
+            # never wrap these.  A plain import whose aliases don't fit on
+            # one line is written as one statement per alias.
+            N = params.max_line_length or params._max_line_lenght_default
+            res = s + ", ".join(tokens) + "\n"
+            if len(res) - 1 > N and len(tokens) > 1:
+                res = "".join(s + t + "\n" for t in tokens)
+            res = s0 + res
+        else:
+            res = s0 + pyfill(s, tokens, params=params)
         if params.use_black:
             return self.run_black(res, params)
         return res
